@@ -101,6 +101,11 @@ def families(tier):
                                                   # block row itself is held by every configuration, only its content changes
                                                   [Rule("a *", [Rule("c *", [Rule("e *")]), Rule("d *")], rewrite=True, mandatory=True, nkeys=1)],
                                                   [Rule("b"), Rule("a", [Rule("c *"), Rule("d")], rewrite=True, mandatory=True)]])
+    # F24: %ignore_case (rows of the flagged rule differ in letter case between device and desired configuration; the
+    #      sibling rules are case-sensitive and their rows hold upper-case letters)
+    add("F24-ignore-case", [[Rule("B *"), Rule("d *", icase=True)],
+                            [Rule("a *", [Rule("C ~"), Rule("d *", icase=True)])],
+                            [Rule("a", [Rule("d", icase=True), Rule("E *", logic="undo_redo")])]])
     if tier == "thorough":
         # F6: depth 3
         add("F6-depth3", [[Rule("a *", [Rule("c *", [Rule(shape(s, "e"), **f)])])]
